@@ -17,3 +17,72 @@ package config
 //@   props C18
 //@   ensures (ret1 == nil) == (ret0 != nil)
 //@   ensures onc.n == old(onc.n) && onu.n == old(onu.n) && ond.n == old(ond.n) && smstore.n == old(smstore.n) && smdel.n == old(smdel.n) && smload.n == old(smload.n)
+
+// C15: the URL rewrite of proxy mode.
+// strip prefix: removed when (and only when) the value starts with it
+//@ func (PrefixCutter).CutFrom
+//@   props C15
+//@   modifies nothing
+//@   ensures len(c) != 0 && hasPrefix(value, string(c)) ==> ret0 == substr(value, len(c), len(value) - len(c))
+//@   ensures len(c) == 0 || !hasPrefix(value, string(c)) ==> ret0 == value
+
+// add prefix: plain concatenation
+//@ func (PrefixAdder).AddTo
+//@   props C15
+//@   modifies nothing
+//@   ensures ret0 == string(a) + value
+
+// removed query parameters: whenever there is something to strip the query is parsed, every
+// configured name is deleted from the parsed values (once, in order) and the result is the encoding
+// of exactly these values; an unparsable query is passed on unchanged
+//@ func (QueryParamsRemover).RemoveFrom
+//@   props C15
+//@   modifies map(string,[]string)
+//@   loop 0 invariant qdel.n == old(qdel.n) + idx + 1 && 0 - 1 <= idx && idx < len(r) && pq.n == old(pq.n) + 1 && qenc.n == old(qenc.n)
+//@   loop 0 invariant forall j int :: 0 <= j && j <= idx ==> qdel.arg0[old(qdel.n) + j] == pq.ret0[old(pq.n)] && qdel.arg1[old(qdel.n) + j] == r[j]
+//@   ensures len(value) == 0 || len(r) == 0 ==> ret0 == value && pq.n == old(pq.n)
+//@   ensures len(value) != 0 && len(r) != 0 ==> pq.n == old(pq.n) + 1 && pq.arg0[old(pq.n)] == value
+//@   ensures len(value) != 0 && len(r) != 0 && pq.ret1[old(pq.n)] != nil ==> ret0 == value && qdel.n == old(qdel.n)
+//@   ensures len(value) != 0 && len(r) != 0 && pq.ret1[old(pq.n)] == nil ==> qdel.n == old(qdel.n) + len(r) && qenc.n == old(qenc.n) + 1 && qenc.arg0[old(qenc.n)] == pq.ret0[old(pq.n)] && ret0 == qenc.ret0[old(qenc.n)]
+//@   ensures len(value) != 0 && len(r) != 0 && pq.ret1[old(pq.n)] == nil ==> (forall j int :: 0 <= j && j < len(r) ==> qdel.arg0[old(qdel.n) + j] == pq.ret0[old(pq.n)] && qdel.arg1[old(qdel.n) + j] == r[j])
+
+//@ func (*URLRewriter).transformPath
+//@   props C15
+//@   modifies nothing
+//@   ensures ret0 == addPrefix(r.PathPrefixToAdd, cutPrefix(r.PathPrefixToCut, value))
+
+//@ spec cutPrefix(c PrefixCutter, v string) string = ite(len(c) != 0 && hasPrefix(v, string(c)), substr(v, len(c), len(v) - len(c)), v)
+//@ spec addPrefix(a PrefixAdder, v string) string = string(a) + v
+
+//@ func (*URLRewriter).transformQuery
+//@   props C15
+//@   logged tq
+//@   modifies map(string,[]string)
+//@   ensures len(value) == 0 || len(r.QueryParamsToRemove) == 0 ==> ret0 == value
+//@   ensures pq.n <= old(pq.n) + 1
+
+// the rewrite changes scheme, path and query only: the scheme when one is configured; the path is
+// the escaped path of the request with the prefix stripped and then the new prefix added - its
+// percent-encoding is kept (RawPath) whenever the request had encoded parts or the result has, and
+// Path is its decoding (never encoded twice); the query goes through the parameter remover
+//@ func (*URLRewriter).Rewrite
+//@   props C15
+//@   requires value != nil
+//@   modifies url.URL.Scheme, url.URL.Path, url.URL.RawPath, url.URL.RawQuery, map(string,[]string)
+//@   ensures forall u *url.URL :: u != value ==> u.Scheme == old(u.Scheme) && u.Path == old(u.Path) && u.RawPath == old(u.RawPath) && u.RawQuery == old(u.RawQuery)
+//@   ensures len(old(r.Scheme)) != 0 ==> value.Scheme == old(r.Scheme)
+//@   ensures len(old(r.Scheme)) == 0 ==> value.Scheme == old(value.Scheme)
+//@   ensures value.Path == pathUnescape(addPrefix(old(r.PathPrefixToAdd), cutPrefix(old(r.PathPrefixToCut), escapedPathOf(old(value.Path), old(value.RawPath)))))
+//@   ensures old(len(value.RawPath)) != 0 || value.Path != addPrefix(old(r.PathPrefixToAdd), cutPrefix(old(r.PathPrefixToCut), escapedPathOf(old(value.Path), old(value.RawPath)))) ==> value.RawPath == addPrefix(old(r.PathPrefixToAdd), cutPrefix(old(r.PathPrefixToCut), escapedPathOf(old(value.Path), old(value.RawPath))))
+//@   ensures old(len(value.RawPath)) == 0 && value.Path == addPrefix(old(r.PathPrefixToAdd), cutPrefix(old(r.PathPrefixToCut), escapedPathOf(old(value.Path), old(value.RawPath)))) ==> value.RawPath == old(value.RawPath)
+//@   ensures tq.n == old(tq.n) + 1 && tq.arg1[old(tq.n)] == old(value.RawQuery) && value.RawQuery == tq.ret0[old(tq.n)]
+//@   ensures value.Host == old(value.Host) && value.User == old(value.User) && value.Fragment == old(value.Fragment)
+
+// the upstream URL: host from forward_to, everything else from the request URL, then the rewrite;
+// the request URL itself is not touched
+//@ func (*Backend).CreateURL
+//@   props C15
+//@   requires value != nil
+//@   ensures ret0 != nil && ret0 != value && ret0.Host == b.Host
+//@   ensures *value == old(*value)
+//@   ensures b.URLRewriter == nil ==> ret0.Scheme == value.Scheme && ret0.Path == value.Path && ret0.RawPath == value.RawPath && ret0.RawQuery == value.RawQuery
